@@ -11,7 +11,7 @@ for P in "$HERE"/mutants/*.patch; do
   for I in ${IDS//,/ }; do
     rc=$(echo "$OUT" | grep "^== $I rc=" | sed 's/.*rc=\([0-9]*\).*/\1/')
     case "$rc" in 1) R="caught";; 0) R="MISSED";; 3) R="patch failed";; *) R="error($rc)";; esac
-    TAG=$(echo "$OUT" | awk "/^== $I rc=/{f=1;next} /^== /{f=0} f" | grep -v VIOLATION | head -1 | sed 's/^ *//' | cut -d: -f1-2 | cut -c1-70)
+    TAG=$(echo "$OUT" | awk "/^== $I rc=/{f=1;next} /^== /{f=0} f" | grep -v "VIOLATION\|KNOWN-FINDING\|^C[0-9]* tier\|^phase" | head -1 | sed 's/^ *//' | cut -d: -f1-2 | cut -c1-70)
     ROW="$ROW $I: $R${TAG:+ ($TAG)};"
   done
   echo "$ROW |"
